@@ -139,7 +139,13 @@ def run(ctx):
         for k in ("params", "array_params"):
             ctx.count("%s:%d" % (k, len(info[k])))
         for r in range(reps):
-            vals, arrays = gen.gen_param_values(ctx.rng, info, exact_friendly=(r % 2 == 0))
+            for _try in range(20):
+                vals, arrays = gen.gen_param_values(ctx.rng, info, exact_friendly=(r % 2 == 0))
+                if gen.values_in_domain(script, vals):
+                    break
+            else:
+                ctx.count("no-values-in-domain")
+                continue
             msg, text, subst_text = check_template(script, info, vals, arrays)
             occurrences = text.count("{")
             ctx.case((text, sorted(vals.items()), repr(arrays)), nontrivial=occurrences >= 2)
